@@ -119,12 +119,29 @@ impl<'a> Gen<'a> {
                 for i in 0..k {
                     let path = join(&d, &format!("w{}", i));
                     let kind = if self.rng.chance(1, 6) { Kind::Dir } else { Kind::File };
-                    if kind == Kind::Dir && self.rng.chance(1, 2) {
+                    if kind == Kind::Dir && self.rng.chance(2, 3) {
                         tree.push(Node { path: path.clone(), kind, mode: None });
-                        tree.push(Node { path: join(&path, self.names[0]), kind: Kind::File, mode: None });
+                        if self.rng.chance(1, 2) {
+                            tree.push(Node { path: join(&path, self.names[0]), kind: Kind::File, mode: None });
+                        }
+                        else {
+                            // a non-empty directory one level further down
+                            let sub = join(&path, self.names[self.names.len() - 1]);
+                            tree.push(Node { path: sub.clone(), kind: Kind::Dir, mode: None });
+                            tree.push(Node { path: join(&sub, "leaf"), kind: Kind::File, mode: None });
+                        }
                     }
                     else {
                         tree.push(Node { path, kind, mode: None });
+                    }
+                }
+                // a few non-empty directories of another name among them
+                for j in 0..self.rng.below(3) {
+                    let path = join(&d, &format!("x{}", j));
+                    if !tree.iter().any(|t| t.path == path) {
+                        tree.push(Node { path: path.clone(), kind: Kind::Dir, mode: None });
+                        tree.push(Node { path: join(&path, "leaf"), kind: Kind::File, mode: None });
+                        tree.push(Node { path: join(&path, self.names[0]), kind: Kind::File, mode: None });
                     }
                 }
             },
@@ -473,6 +490,32 @@ impl<'a> Gen<'a> {
                 format!("*{{/**/{},/{}}}", a, b),
             ];
             return self.rng.pick(&shapes).clone();
+        }
+        // a very wide directory at or below the base: a selective wildcard for the wide level (nearly
+        // every name there matches it), after a literal path to that directory
+        let wide = model
+            .nodes
+            .iter()
+            .filter(|(p, i)| i.children.len() > 60 && (p.as_str() == base || is_below(p, base)))
+            .map(|(p, _)| p.clone())
+            .next();
+        if let Some(wide) = wide {
+            if self.rng.chance(4, 10) {
+                let a = esc(self.names[0]);
+                let z = esc(self.names[self.names.len() - 1]);
+                let tails = [
+                    "w*/*".to_string(),
+                    "w*/**".to_string(),
+                    "w*/*/leaf".to_string(),
+                    format!("{{w*,{}}}/*", z),
+                    format!("w*/{{{},{}}}/**", a, z),
+                    format!("*/{}/**", a),
+                    format!("?*/{}", z),
+                ];
+                let tail = self.rng.pick(&tails).clone();
+                let lead: Vec<String> = rel_to(&wide, base).split('/').filter(|c| !c.is_empty()).map(esc).collect();
+                return if lead.is_empty() { tail } else { format!("{}/{}", lead.join("/"), tail) };
+            }
         }
         // derive from a real path below base (or a made-up one)
         let below: Vec<&String> = model
